@@ -841,6 +841,24 @@ func rulesC16(e *Engine, r *Report) {
 				}, "delete(poll, f.GetName()) in the iteration that called finish(f)")
 		}
 	}
+	// ---------------------------------------------------------------- R16.14
+	r.Rule("R16.14", "nothing confirmed is left unrecorded, whichever way the sender leaves: in the two places that apply verdicts in batches (the validator loop and the start-up recovery) every return that can follow a finish() has passed Cache.Persist after the last one - including the returns taken on an immediate stop in the middle of a batch (R07.1 looks at the ends of batches; this rule at the exits)")
+	for _, name := range []string{"client.(*Broker).startValidate", "client.(*Broker).recover"} {
+		fn := needFn(e, r, "R16.14", name)
+		if fn == nil {
+			continue
+		}
+		fin := "call(client.(*Broker).finish)(p0, §)"
+		cls := labeler(
+			I(fin, "finished"),
+			IK(fin, "persisted"),
+			I("invoke(sts.FileCache.Persist)(p0.Conf.Cache)", "persisted"),
+		)
+		res := e.Flow(fn, FlowOpts{Classify: cls, Target: isReturn, Sticky: []string{"finished", "persisted"}})
+		n := e.judge(r, "R16.14", name+": no return between a verdict applied and the cache persisted", fn, res,
+			func(l LabelSet) bool { return !l.Has("finished") || l.Has("persisted") }, "Cache.Persist after the last finish()")
+		r.Min("R16.14", "returns of "+name, n, 2)
+	}
 }
 
 func shortPred(p string) string {
